@@ -9,6 +9,7 @@ CONSTANTS
   History = TRUE
   DoEmit = FALSE
   Bug = "none"
+  Hist = 0
   Shape = "sorted"
 SYMMETRY Sym
 INVARIANT TypeOK
